@@ -106,7 +106,14 @@ BLOCKS = [  # every statement-list field with two or three statements (sibling s
 ]
 PROGS = BASE + EXTRA + TRICKY
 N_HAND = len(PROGS)
-PROGS = PROGS + ARGS4 + PARAMS + BLOCKS
+FSTR14 = [  # every shape of replacement field: empty / literal / nested format spec, conversion, self-documenting, nested and joined strings
+    'a = f"{x:}"\nb = f"{x!r:}"\nc = f"{x:>10}"\nd = f"{x:{w}}"\ne = f"{x:{w}.{p}f}"',
+    'a = f"{f\'{y:}\'}"\nb = f"{x=}"\nc = f"{x=!r:}"\nd = f""\ne = f"{x}{y:}{z!s}"\ng = f"a" "b" f"{c:}" f"{d}"',
+    'a = f"""{\n x\n :\n}"""\nb = f"{x:{y:}}"\nc = f"{ {1: 2}[1] :}"\nd = f"{(lambda: 1)():}"',
+]
+PROGS = PROGS + ARGS4 + PARAMS + BLOCKS + FSTR14
+for _p in FSTR14:
+    ast.parse(_p)
 for _p in PROGS[:N_HAND]:
     ast.parse(_p)
 
